@@ -61,6 +61,8 @@ def run(repo, rep):
     _truth_rule(repo, rep, 'C12', 'C12.Z4')
     from ..api_pitfalls import attribute_rule as _attribute_rule
     _attribute_rule(repo, rep, 'C12', 'C12.Z5')
+    from ..api_pitfalls import pairing_rule as _pairing_rule
+    _pairing_rule(repo, rep, 'C12', 'C12.Z6')
     model = FsmModel(repo)
     pm = ProviderModel(repo, model)
     rep.rule('C12.E6', 'no function of the provider / state machine / codecs reads an ``except ... as name`` variable after its handler '
